@@ -123,8 +123,10 @@ int asm_assemble_str(assemblyline_t al, const char *assembly_str) {
   // check minimum buffer length requirement
   check_buffer_len(al->buffer_len);
   // assemble string containing x64 assembly code
-  al->offset = assemble_all(al, assembly_str, NULL);
-  FAIL_IF(al->offset == ASM_ERROR);
+  int new_offset = assemble_all(al, assembly_str, NULL);
+  // keep the previous offset on failure: the instance stays usable
+  FAIL_IF(new_offset == ASM_ERROR);
+  al->offset = new_offset;
   al->finalized = true;
   return EXIT_SUCCESS;
 }
@@ -142,8 +144,10 @@ int asm_assemble_string_counting_chunks(assemblyline_t al, char *str,
   al->chunk_size = chunk_size;
   check_buffer_len(al->buffer_len);
   // assemble string containing x64 assembly code
-  al->offset = assemble_all(al, str, dest);
-  FAIL_IF(al->offset == ASM_ERROR);
+  int new_offset = assemble_all(al, str, dest);
+  // keep the previous offset on failure: the instance stays usable
+  FAIL_IF(new_offset == ASM_ERROR);
+  al->offset = new_offset;
   al->finalized = true;
   return EXIT_SUCCESS;
 }
